@@ -79,6 +79,16 @@ def make_trees(specgen_valid):
         {"name": "NPCType", "kind": "struct", "dir": "pub", "family": "", "action": "", "code": [field("id", "short")], "rt": True},
         {"name": "Vector2D", "kind": "struct", "dir": "map", "family": "", "action": "", "code": [field("x", "char"), field("y", "char")], "rt": True},
         {"name": "EIFRecord", "kind": "struct", "dir": "pub", "family": "", "action": "", "code": [field("v", "Vector2D"), field("n", "NPCType")], "rt": True},
+        # types that are NOT packets in the packet directories; types of a parent package whose module name starts with the name of the
+        # importing sub-directory (server_info used from net/server, client_version from net/client, map_coords from map)
+        {"name": "ClientOnlyInfo", "kind": "struct", "dir": "net/client", "family": "", "action": "", "code": [field("x", "char")], "rt": True},
+        {"name": "ServerOnlyInfo", "kind": "struct", "dir": "net/server", "family": "", "action": "", "code": [field("x", "char"), field("k", "Kind")], "rt": True},
+        {"name": "ServerInfo", "kind": "struct", "dir": "net", "family": "", "action": "", "code": [field("id", "short")], "rt": True},
+        {"name": "ClientVersion", "kind": "struct", "dir": "net", "family": "", "action": "", "code": [field("major", "char")], "rt": True},
+        {"name": "MapCoords", "kind": "struct", "dir": "", "family": "", "action": "", "code": [field("x", "char"), field("y", "char")], "rt": True},
+        {"name": "MapWarp", "kind": "struct", "dir": "map", "family": "", "action": "", "code": [field("to", "MapCoords")], "rt": True},
+        {"name": "AccountReplyServerPacket", "kind": "packet", "dir": "net/server", "family": "Account", "action": "Reply", "code": [field("info", "ServerInfo"), field("o", "ServerOnlyInfo")], "rt": True},
+        {"name": "AccountRequestClientPacket", "kind": "packet", "dir": "net/client", "family": "Account", "action": "Request", "code": [field("v", "ClientVersion"), field("o", "ClientOnlyInfo")], "rt": True},
     ]
     trees.append(("sibling-references", tB, pB))
     # D / E: references INTO the directories where packets live, from a file that is imported before them (known findings F9 / F10)
@@ -212,6 +222,7 @@ def run(tier, corrupt=False):
             configs.append((pick[0], 1, "reuse", False))    # the same generator instance, after a run that failed on a then-broken file
             configs.append((pick[-1], 2, "decoy", False))   # after another instance generated a tree with the same names and other ordinals
             configs.append((pick[0], 0, "locale", False))   # under a C locale without UTF-8 mode
+            configs.append((pick[-1], 1, "dotroot", False)) # the input root given as "." (the XML tree is the working directory)
             expected_paths = None
             for ci, (order, hs, repeat, prepop) in enumerate(configs):
                 out = tmp / f"out_{tname}_{ci}"
